@@ -8,7 +8,7 @@
    thirdparty/.../binary_protocol.go: WriteI16/I32/I64 (big endian), ReadI16/I32/I64
    and the conversions int32(x), int16(x), uint32(x), uint64(x) of Go. *)
 From Coq Require Import ZArith List Bool.
-From Tally Require Import Base.Obs.
+From Tally Require Import Base.ObsCore.
 Import ListNotations.
 Open Scope Z_scope.
 
